@@ -11,3 +11,4 @@ CHECKS.update(schecks.CHECKS)
 CHECKS.update(nchecks.CHECKS)
 CHECKS.update(vchecks.CHECKS)
 REPLAYERS["E"] = echecks.replay_env
+REPLAYERS["G"] = nchecks.replay_gen
